@@ -106,14 +106,23 @@ def check(ld, prog, res):
         return
     try:
         with ob.watchdog(15):
+            before = res.violation_count
             called = _check(ld, prog, m, B, node, lib_log, ref_log, case, lo, res)
+            if m.items and m.labelstate != 'none' and res.violation_count == before:
+                # the same for keyed iteration (.items() on top of the pipeline)
+                lib_log2, ref_log2 = [], []
+                B2 = lazyref.Build(LogFns(ref_log2))
+                node2 = B2.run(prog)
+                res.count('keyed_iterations_checked')
+                called += _check(ld, prog, m, B2, node2, lib_log2, ref_log2,
+                                 {**case, 'keyed': True}, lo, res, keyed=True)
     except ob.Watchdog:
         res.inconclusive_because(f'watchdog on {prog!r}')
         return
     res.case(repr(prog), nontrivial=bool(called))
 
 
-def _check(ld, prog, m, B, node, lib_log, ref_log, case, lo, res):
+def _check(ld, prog, m, B, node, lib_log, ref_log, case, lo, res, keyed=False):
     called = 0
     try:
         ds = programs.build(ld, prog, fns=LogFns(lib_log))
@@ -137,7 +146,8 @@ def _check(ld, prog, m, B, node, lib_log, ref_log, case, lo, res):
     it_ref = node.it()
     for _ in range(limit + B.lookahead + 2):
         try:
-            ref_vals.append(next(it_ref)[1])
+            pair = next(it_ref)
+            ref_vals.append(pair if keyed else pair[1])
         except StopIteration:
             ref_vals.append(StopIteration)
             ref_marks.append(len(ref_log))
@@ -200,7 +210,7 @@ def _check(ld, prog, m, B, node, lib_log, ref_log, case, lo, res):
             out[st] = out.get(st, []) + ids
         return out
     # ---- iteration prefixes
-    it = iter(ds)
+    it = iter(ds.items()) if keyed else iter(ds)
     try:
         for k in range(1, limit + 1):
             try:
@@ -254,6 +264,8 @@ def _check(ld, prog, m, B, node, lib_log, ref_log, case, lo, res):
         if close:
             close()
     # ---- point access
+    if keyed:
+        return called
     if m.finite and m.indexable and m.sized and node.get is not None and m.n:
         lib_log2, ref_log2 = [], []
         try:
